@@ -26,6 +26,11 @@ Fixpoint number (from : N) (pl : list payload) : list entry :=
 (* a Ready batch that is a window of the log *)
 Definition window (L : list entry) (lo len : nat) : list entry := firstn len (skipn lo L).
 
+(* uint64 arithmetic of Go *)
+Definition W64 : N := 18446744073709551616.
+Definition add64 (a b : N) : N := (a + b) mod W64.
+Definition sub64 (a b : N) : N := (a + W64 - b) mod W64.
+
 (* raft.go entriesToApply.  None = log.Fatalf ("first index of committed entry[%d] should <=
    progress.appliedIndex[%d]+1"): the node stops rather than skip an entry. *)
 Definition entries_to_apply (applied : N) (ents : list entry) : option (list entry) :=
@@ -33,10 +38,12 @@ Definition entries_to_apply (applied : N) (ents : list entry) : option (list ent
   | [] => Some []
   | e :: _ =>
     let first := eidx e in
-    if applied + 1 <? first then None
-    else if applied - first + 1 <? N.of_nat (List.length ents)
-         then Some (skipn (N.to_nat (applied - first + 1)) ents)
-         else Some []
+    if add64 applied 1 <? first then None
+    else
+      (* rc.appliedIndex-firstIdx+1: when the batch starts exactly at appliedIndex+1 the
+         subtraction wraps to 2^64-1 and the addition wraps back to 0 *)
+      let off := add64 (sub64 applied first) 1 in
+      if off <? N.of_nat (List.length ents) then Some (skipn (N.to_nat off) ents) else Some []
   end.
 
 Definition cmd_of (e : entry) : list (bytes * list bytes) :=
